@@ -186,6 +186,15 @@ func anyInput(rng *rand.Rand, n int) []int {
 }
 
 func preds(rng *rand.Rand) *Pred {
+	p := basePred(rng)
+	if rng.Intn(4) == 0 {
+		// a predicate that fails on some elements, answering (true, error) there
+		p.EM, p.ER = 4, rng.Intn(4)
+	}
+	return p
+}
+
+func basePred(rng *rand.Rand) *Pred {
 	switch rng.Intn(6) {
 	case 0:
 		return &Pred{Kind: "lt", C: rng.Intn(10)}
@@ -289,7 +298,7 @@ func generate(family string, rng *rand.Rand, thorough bool) []plan {
 				&Stage{Kind: "join", N: 2},
 				&Stage{Kind: "join", N: []int{0, 1, 3}[rng.Intn(3)]}, // also no input at all: the output closes at once
 				&Stage{Kind: "unfold", N: rng.Intn(3), Seed: rng.Intn(3), A: 2, B: 1},
-				&Stage{Kind: "emit", N: rng.Intn(3), Freq: []int{1, 3, 10}[rng.Intn(3)], A: 1, B: 0},
+				&Stage{Kind: "emit", N: rng.Intn(3), Freq: []int{0, 1, 3, 10}[rng.Intn(4)], A: 1, B: 0}, // also no pause at all
 				&Stage{Kind: "throttle", Ops: rng.Intn(3) + 1, Freq: rng.Intn(5) + 2},
 				&Stage{Kind: "map", A: 1, B: 1, Fail: &Fail{Kind: "modeq", M: 3, R: 1}, Try: rng.Intn(2) == 0},
 				&Stage{Kind: "fmap", M: 3, Fail: &Fail{Kind: "modeq", M: 4, R: 1}, Try: rng.Intn(2) == 0},
@@ -301,6 +310,21 @@ func generate(family string, rng *rand.Rand, thorough bool) []plan {
 				}
 				if s.Kind == "unfold" || s.Kind == "emit" {
 					nin = 0
+				}
+				if rep%2 == 0 {
+					// the context is cancelled before the stage is even created: everything still closes
+					pin := make([][]int, nin)
+					pic := make([]int, nin)
+					var psc []intent
+					for i := range pin {
+						pin[i] = []int{100*i + 1}
+						pic[i] = rng.Intn(2)
+						psc = append(psc, intent{kind: "send", i: i}, intent{kind: "close", i: i})
+					}
+					if s.Kind == "emit" || s.Kind == "throttle" {
+						psc = append(psc, intent{kind: "sleep", d: 3 * max(s.Freq, 1)})
+					}
+					add(plan{stage: s, icaps: pic, inputs: pin, sched: &scripted{script: psc}, maxMoves: 20, drain: rep%4 == 0, gen: "pre-cancelled"})
 				}
 				timed := s.Kind == "emit" || s.Kind == "throttle"
 				slp := 0
@@ -449,14 +473,49 @@ func generate(family string, rng *rand.Rand, thorough bool) []plan {
 						for _, n := range []int{rng.Intn(par + 1), par, par + 1 + rng.Intn(4)} {
 							s := &Stage{Kind: "fork", Par: par, Gate: gate, Inner: inner}
 							wc := 0
-							if rng.Intn(3) == 0 && !(par >= 7 && inner.Kind == "fmap") {
-								// (seven workers each in the middle of several sends when the cancel arrives: the trace
+							if rng.Intn(3) == 0 && par < 7 {
+								// (seven workers in the middle of their sends when the cancel arrives: the trace
 								// acceptance explores too many interleavings; cancel is exercised with fewer workers)
 								wc = 1
 							}
 							add(plan{stage: s, icaps: []int{rng.Intn(3)}, inputs: [][]int{distinctInput(rng, n)}, sched: rnd(4, 2, 3, wc, 4, 0, nil), maxMoves: 40, drain: true, gen: "random"})
 						}
 					}
+				}
+			}
+		}
+		// every fork stage with a consumer that never comes: more elements than the outputs can hold are handed over,
+		// every in-flight call completes, the workers are parked in their sends when the cancel arrives (before or after
+		// the close of the input) - all of them exit and everything closes
+		for rep := 0; rep < 2*mul; rep++ {
+			for _, par := range []int{1, 2, 3} {
+				for _, inner := range []*Stage{
+					{Kind: "map", A: 2, B: 1}, {Kind: "fmap", M: 2}, {Kind: "filter", Pred: &Pred{Kind: "true"}},
+					{Kind: "partition", Pred: preds(rng)}, {Kind: "foreach"}, {Kind: "void"},
+					{Kind: "map", A: 1, B: 0, Fail: &Fail{Kind: "modeq", M: 2, R: 0}, Try: true},
+				} {
+					gate := rep%2 == 0 && inner.Kind != "void"
+					n := 2*par + 2 + rng.Intn(3)
+					in := distinctInput(rng, n)
+					var sc []intent
+					for j := 0; j < n; j++ {
+						sc = append(sc, intent{kind: "send", i: 0})
+						if gate {
+							sc = append(sc, intent{kind: "release-any", i: rng.Intn(4)})
+						}
+					}
+					for j := 0; j < 2*n && gate; j++ {
+						sc = append(sc, intent{kind: "release-any", i: rng.Intn(4)})
+					}
+					if rng.Intn(2) == 0 {
+						sc = append(sc, intent{kind: "cancel"}, intent{kind: "close", i: 0})
+					} else {
+						sc = append(sc, intent{kind: "close", i: 0}, intent{kind: "cancel"})
+					}
+					for j := 0; j < 2*n && gate; j++ {
+						sc = append(sc, intent{kind: "release-any", i: rng.Intn(4)})
+					}
+					add(plan{stage: &Stage{Kind: "fork", Par: par, Gate: gate, Inner: inner}, icaps: []int{n}, inputs: [][]int{in}, sched: &scripted{script: sc}, maxMoves: 100, drain: false, gen: "absent-consumer"})
 				}
 			}
 		}
@@ -530,6 +589,18 @@ func generate(family string, rng *rand.Rand, thorough bool) []plan {
 			}
 			ab = append(ab, intent{kind: "cancel"})
 			add(plan{stage: &Stage{Kind: "unfold", N: ucap, Seed: rng.Intn(5), A: 2, B: 1}, sched: &scripted{script: ab}, maxMoves: 10, drain: false, gen: "absent-consumer"})
+			if rep%5 == 0 {
+				add(plan{stage: &Stage{Kind: "unfold", N: rng.Intn(3), Seed: rng.Intn(5), A: 1, B: 1}, sched: &scripted{script: []intent{{kind: "recv", k: 0}, {kind: "recv", k: 1}}}, maxMoves: 6, drain: rep%10 == 0, gen: "pre-cancelled"})
+				add(plan{stage: &Stage{Kind: "emit", N: rng.Intn(3), Freq: freq, A: 1, B: 0}, sched: &scripted{script: []intent{{kind: "sleep", d: 3 * freq}, {kind: "recv", k: 0}}}, maxMoves: 6, drain: false, gen: "pre-cancelled"})
+				// frequencies that divide nothing round (7 ticks) and the degenerate frequency 0 (no pause at all; the
+				// consumer's pace is then the only brake, so no Try failures here)
+				var ks []intent
+				for j := 0; j < 5; j++ {
+					ks = append(ks, intent{kind: "sleep", d: 7}, intent{kind: "recv", k: 0}, intent{kind: "recv", k: 0})
+				}
+				add(plan{stage: &Stage{Kind: "emit", N: rng.Intn(3), Freq: 7, A: 2, B: 1}, sched: &scripted{script: ks}, maxMoves: 40, drain: true, gen: "keeps-up"})
+				add(plan{stage: &Stage{Kind: "emit", N: rng.Intn(3), Freq: 0, A: 1, B: 0}, sched: rnd(0, 0, 4, 1, 0, 0, nil), maxMoves: 12, drain: true, gen: "random"})
+			}
 			// after the cancel the consumer parks in a blocking receive and takes whatever comes: the generator must
 			// notice the cancel although its send never has to wait
 			var pk []intent
@@ -604,6 +675,25 @@ func generate(family string, rng *rand.Rand, thorough bool) []plan {
 				sc = append(sc, intent{kind: "send", i: 0}, intent{kind: "recv", k: 0}, intent{kind: "recv", k: 0})
 			}
 			add(plan{stage: s, icaps: []int{cp}, inputs: [][]int{in}, sched: &scripted{script: sc}, maxMoves: 80, drain: true, gen: "idle-then-burst"})
+			// the consumer stalls while input is available (the input buffer, the token bucket and everything in
+			// between fill up), then drains as fast as it can
+			var stl []intent
+			for j := 0; j < len(in); j++ {
+				stl = append(stl, intent{kind: "send", i: 0})
+			}
+			stl = append(stl, intent{kind: "sleep", d: (cp/ops + 4) * iv})
+			for j := 0; j < 3*len(in); j++ {
+				stl = append(stl, intent{kind: "send", i: 0}, intent{kind: "recv", k: 0})
+			}
+			add(plan{stage: s, icaps: []int{cp}, inputs: [][]int{in}, sched: &scripted{script: stl}, maxMoves: 200, drain: true, gen: "idle-then-burst: consumer stall"})
+			// everything delivered, a long silence, then the input closes: the output closes with it
+			var idc []intent
+			few := in[:min(len(in), 3)]
+			for j := 0; j < len(few); j++ {
+				idc = append(idc, intent{kind: "send", i: 0}, intent{kind: "sleep", d: iv}, intent{kind: "recv", k: 0})
+			}
+			idc = append(idc, intent{kind: "sleep", d: 5 * iv}, intent{kind: "close", i: 0}, intent{kind: "sleep", d: 1}, intent{kind: "recv", k: 0})
+			add(plan{stage: s, icaps: []int{cp}, inputs: [][]int{few}, sched: &scripted{script: idc}, maxMoves: 60, drain: false, gen: "idle-then-close"})
 			// steady: input always available, consumer always ready; one virtual tick per round
 			var st []intent
 			for r := 0; r < (len(in)/ops+2)*iv; r++ {
